@@ -306,22 +306,26 @@ def _gen_strform(rng):
         v['masked'] = False
         v.pop('mask', None)
     dn, n, _ = rng.choice(dims)
-    form = rng.choice([1, 2, 2, 3, 3])
-    a = rng.randint(0, n - 1)
+    form = rng.choice([1, 1, 2, 2, 3, 3])
+    a = rng.randint(-n, n - 1)
     if form == 1:
+        # 'dim,i' selects element i (negative: from the end)
         s = '%s,%d' % (dn, a)
-        sl = [a, a + 1, None]
+        sl = [a, (a + 1) or None, None]
+        args = [a]
     else:
         b = rng.choice([None, rng.randint(-n - 1, n + 1)])
         a2 = rng.choice([None, rng.randint(-n - 1, n + 1)])
         if form == 2:
             s = '%s,%s,%s' % (dn, a2, b)
             sl = [a2, b, None]
+            args = [a2, b]
         else:
             c = rng.choice([None, 1, 2, -1, -2, 3])
             s = '%s,%s,%s,%s' % (dn, a2, b, c)
             sl = [a2, b, c]
-    return dict(kind='strform', dims=dims, vars=vs, slicedef=s, dim=dn, sl=sl)
+            args = [a2, b, c]
+    return dict(kind='strform', dims=dims, vars=vs, slicedef=s, dim=dn, sl=sl, args=args)
 
 
 # ----------------------------------------------------------------------------- implementation side
@@ -528,7 +532,10 @@ def coq_term(case, obs):
     dims = C.natlist([d[1] for d in case['dims']])
     vs = '[' + '; '.join('(%s, %s)' % (C.natlist([ids[n] for n in v['dims']]), _ccells_in(case, vi, v))
                          for vi, v in enumerate(case['vars'])) + ']'
-    kws = '[' + '; '.join('(%d%%nat, %s)' % (ids.get(dn, nd + 7), _csel(s)) for dn, s in case['kws']) + ']'
+    if case['kind'] == 'strform' and 'args' in case:
+        kws = '(kws_of_args %d%%nat [%s])' % (ids[case['dim']], '; '.join(C.copt(x, C.zc) for x in case['args']))
+    else:
+        kws = '[' + '; '.join('(%d%%nat, %s)' % (ids.get(dn, nd + 7), _csel(s)) for dn, s in case['kws']) + ']'
     if 'raises' in obs:
         o = 'None'
     else:
